@@ -105,19 +105,52 @@ func checkC04(c *Ctx, r *Report) {
 	if pk := c.PackagerByFormat("ipk"); pk != nil {
 		found := false
 		for _, fn := range sortedFuncs(c, c.Reach(pk.Package)) {
-			var seq []*ssa.Call
+			type outer struct {
+				call *ssa.Call
+				name string
+				body ssa.Value
+				row  int
+			}
+			var seq []outer
 			var names []string
 			forEachInstr(fn, func(in ssa.Instruction) {
 				call, ok := in.(*ssa.Call)
-				if !ok || call.Call.StaticCallee() == nil {
+				if !ok || call.Call.StaticCallee() == nil || len(call.Call.Args) == 0 || !isArchiveWriterType(call.Call.Args[0]) {
 					return
 				}
-				for _, a := range call.Call.Args {
+				for i, a := range call.Call.Args {
+					var body ssa.Value
+					if i+1 < len(call.Call.Args) {
+						body = call.Call.Args[i+1]
+					}
 					switch constOrEmpty(a) {
 					case "debian-binary", "control.tar.gz", "data.tar.gz":
-						if isArchiveWriterType(call.Call.Args[0]) {
-							seq = append(seq, call)
-							names = append(names, constOrEmpty(a))
+						seq = append(seq, outer{call, constOrEmpty(a), body, 0})
+						names = append(names, constOrEmpty(a))
+						continue
+					}
+					// table-driven: one call in a loop over a literal table of
+					// {name, content} rows - one member per row, in row order
+					ia, nfield, isElem := loopElemField(a)
+					if !isElem || a.Type().String() != "string" {
+						continue
+					}
+					arr, _ := fullRangeOver(ia, call)
+					if arr == nil {
+						continue
+					}
+					rows := tableRows(arr, ia)
+					bfield := ""
+					if body != nil {
+						if ib, bf, ok := loopElemField(body); ok && ib == ia {
+							bfield = bf
+						}
+					}
+					for k, row := range rows {
+						switch n := constOrEmpty(row[nfield]); n {
+						case "debian-binary", "control.tar.gz", "data.tar.gz":
+							seq = append(seq, outer{call, n, row[bfield], k})
+							names = append(names, n)
 						}
 					}
 				}
@@ -128,20 +161,22 @@ func checkC04(c *Ctx, r *Report) {
 			found = true
 			ordered := len(seq) == 3
 			for i := 1; i < len(seq); i++ {
-				if !instrDominates(seq[i-1], seq[i]) {
+				if seq[i-1].call == seq[i].call {
+					if seq[i-1].row >= seq[i].row {
+						ordered = false
+					}
+				} else if !instrDominates(seq[i-1].call, seq[i].call) {
 					ordered = false
 				}
 			}
 			r.Check(ordered && strings.Join(names, ",") == "debian-binary,control.tar.gz,data.tar.gz", "O3", "ipk: outer member order", c.pos(fn.Pos()), "members written: "+strings.Join(names, ", "))
 			for _, s := range seq {
-				for i, a := range s.Call.Args {
-					if constOrEmpty(a) == "debian-binary" && i+1 < len(s.Call.Args) {
-						body := s.Call.Args[i+1]
-						if cv, ok := body.(*ssa.Convert); ok {
-							body = cv.X
-						}
-						r.Check(constOrEmpty(body) == "2.0\n", "O3", "ipk: debian-binary content", c.instrPos(s), fmt.Sprintf("content constant %q", constOrEmpty(body)))
+				if s.name == "debian-binary" && s.body != nil {
+					body := s.body
+					if cv, ok := body.(*ssa.Convert); ok {
+						body = cv.X
 					}
+					r.Check(constOrEmpty(body) == "2.0\n", "O3", "ipk: debian-binary content", c.instrPos(s.call), fmt.Sprintf("content constant %q", constOrEmpty(body)))
 				}
 			}
 		}
